@@ -27,6 +27,35 @@ def flags_cases(rng, tier):
                 op = rng.pick(OPS)
                 mask = C.NONE if rng.random() < 0.6 else {"k": "bool", "b": [rng.randrange(2) for _ in keys]}
                 out.append(C.base_case(op, C.adapt_keys(rng, keys, kenc), vals, kenc=kenc, sort=sort, oo=oo, mask=mask))
+    # chunk-wise factorization (arrow chunks as given; NumPy keys of >= T rows are split into 4 blocks): every block meets
+    # the labels in the same order, blocks with different label sets, an empty block
+    for r in (2, 3):
+        for block in itertools.permutations([1, 2, 3], r):
+            for layout in ("np4", "pa2", "pa3", "pa_empty_last", "pa_empty_first", "pa_mixed"):
+                for sort in (0, 1):
+                    if tier == "quick" and rng.random() < 0.4:
+                        continue
+                    kenc = rng.pick(["f64", "str", "i64", "M8"])
+                    b = list(block)
+                    if layout == "np4":
+                        keys, kcont, T = b * 4, "np", 2
+                    elif layout == "pa2":
+                        keys, kcont, T = b * 2, ("pachunk", [r, r]), None
+                    elif layout == "pa3":
+                        keys, kcont, T = b * 3, ("pachunk", [r, r, r]), None
+                    elif layout == "pa_empty_last":
+                        keys, kcont, T = b, ("pachunk", [r, 0]), None
+                    elif layout == "pa_empty_first":
+                        keys, kcont, T = b, ("pachunk", [0, r]), None
+                    else:
+                        tail = [rng.pick([1, 2, 3]) for _ in range(rng.randrange(1, 4))]
+                        keys, kcont, T = b + tail, ("pachunk", [r, len(tail)]), None
+                    vals = [rng.pick([NULL, 1, 2]) for _ in keys]
+                    c = C.base_case(rng.pick(OPS), keys, vals, kenc=kenc, sort=sort, oo=1)
+                    c["kcont"] = kcont
+                    if T:
+                        c["T"] = T
+                    out.append(c)
     for _ in range(2500 if tier == "quick" else 30000):
         n = rng.randrange(1, 10)
         nk = rng.pick([2, 2, 3])
@@ -51,13 +80,14 @@ def shape_cases(rng, tier):
             nv = 1 if vk in ("array", "series", "plseries") else rng.pick([1, 2, 3])
             vcols = [list(vals)] + [[rng.pick([NULL, 1, 2, 3]) for _ in range(n)] for _ in range(nv - 1)]
             if vk in ("dict", "frame"):
-                vnames = rng.sample(["a", "b", "zz", "v1"], nv)
+                # (default integer column labels start at 0: a label that is falsy but not None)
+                vnames = rng.sample(["a", "b", "zz", "v1"], nv) if rng.random() < 0.7 else list(range(nv))
             elif vk == "list":
-                vnames = [rng.pick([None, "a", "b", "c"]) for _ in range(nv)]
-                if len({x for x in vnames if x}) < len([x for x in vnames if x]):
+                vnames = [rng.pick([None, "a", "b", "c", 0]) for _ in range(nv)]
+                if len({x for x in vnames if x is not None}) < len([x for x in vnames if x is not None]):
                     vnames = [None] * nv
             elif vk in ("series", "plseries"):
-                vnames = [rng.pick([None, "val", "x"])] if vk == "series" else [rng.pick(["val", "x"])]
+                vnames = [rng.pick([None, "val", "x", 0])] if vk == "series" else [rng.pick(["val", "x"])]
             else:
                 vnames = [None] * nv
             nk = rng.pick([1, 1, 2, 3])
@@ -85,7 +115,7 @@ def run(tier):
     sched.install()
     rng = Rng(f"C11-{ck.seed}")
     fc = flags_cases(rng, tier)
-    tf = ck.drive(api.run_reduce, fc, warm_cases=[c for c in fc if len(c["kenc"]) == 1][:20])
+    tf = ck.drive(api.run_reduce, fc, warm_cases=[c for c in fc if len(c["kenc"]) == 1 and not c.get("T")][:20])
     rej = ck.validate("Trace_GBCore", tf, C01.trace_cfg(), "order_flags", nontrivial=C.nontrivial_api, diag_cfg=C01.trace_cfg(diag="TRUE", inv=False))
     ck.judge(rej, "Trace_GBCore", {})
     sc = shape_cases(rng, tier)
